@@ -80,6 +80,9 @@ pub fn replay_wire(args: &Args) {
 // recorders
 // ---------------------------------------------------------------------------------------------
 
+#[allow(dead_code)]
+fn _unused() {}
+
 fn ev_from_bytes(out: &mut Out, b: &[u8]) {
     let (o, pkt) = out_from_bytes(b);
     let re = match &pkt {
